@@ -2,7 +2,10 @@ module verifharness
 
 go 1.23
 
-require github.com/lxzan/gws v0.0.0
+require (
+	github.com/anishathalye/porcupine v1.3.0
+	github.com/lxzan/gws v0.0.0
+)
 
 require (
 	github.com/dolthub/maphash v0.1.0 // indirect
